@@ -11,8 +11,10 @@
    Exempt(c)      the statement: only OPTIONS, paths under /.well-known/, the *exact* health endpoint and
                   the three OAuth browser-flow endpoints bypass authentication.
    ExemptImpl(c)  how the exemption test is structured in _AuthMiddleware.process_request /
-                  make_wsgi_app: one `startswith` per exempt prefix.  With Dev_PrefixMatch = FALSE it is the
-                  intended exact comparison; with TRUE it is the textual prefix match of the current code.
+                  make_wsgi_app: one test per exempt entry.  With dev = FALSE it is the intended exact
+                  comparison (the code since /repo commit a062be5); with dev = TRUE it is the textual prefix
+                  match (`startswith`) the code had before -- kept to label the input class of that finding
+                  (Leak(c)) so that a regression is reported under the same signature.
    Reach(c)       the router: would service code run for this request if it were authenticated.          *)
 EXTENDS Naturals, Sequences, FiniteSets
 
@@ -22,7 +24,8 @@ CONSTANTS PrefixNames,       \* subset of {"root", "vgi", "ab", "health"}: the p
           OAuthModes,        \* subset of {"none", "meta", "pkce"}
           Creds,             \* subset of {"none", "bad", "good"}
           Verbs,             \* subset of {"GET", "POST", "OPTIONS", "HEAD", "DELETE", "PUT"}
-          Dev_PrefixMatch    \* TRUE: faithful to the current code; FALSE: intended design
+          Rich,              \* TRUE: all route suffixes and three-segment paths; FALSE: the reduced (quick) path set
+          Dev_PrefixMatch    \* TRUE: Leak(c) labels the requests the pre-a062be5 prefix match let through; FALSE: no labels
 
 PrefixSeq(n) == CASE n = "root" -> <<>> [] n = "vgi" -> <<"vgi">> [] n = "ab" -> <<"a", "b">> [] n = "health" -> <<"health">>
 Prefixes == {PrefixSeq(n) : n \in PrefixNames}
@@ -35,13 +38,15 @@ Methods == {[b |-> x, e |-> y] : x \in IdentBases, y \in Exts}
 FrameworkSegs == {Seg("__describe__"), Seg("__upload_url__"), Seg("__session__"), Seg("__introspect_token__"),
                   Seg("_oauth"), [b |-> "_oauth", e |-> "x"], WK, Seg("nosuch"), Seg("")}
 Names == Methods \cup FrameworkSegs
-Sufs == {Seg("init"), Seg("exchange"), Seg("callback"), Seg("logout"), Seg("token"), Seg("health"), Seg(""),
-         Seg("oauth-protected-resource")}
-Sufs3 == {Seg("init"), Seg("exchange"), Seg("")}
-Names3 == {Seg("health"), [b |-> "health", e |-> "_status"], Seg("_oauth"), Seg("plain"), WK} \cap Names
+Sufs == {Seg("init"), Seg("exchange"), Seg("callback"), Seg("token"), Seg("")}
+        \cup (IF Rich THEN {Seg("logout"), Seg("health"), Seg("oauth-protected-resource")} ELSE {})
+Sufs3 == {Seg("init"), Seg("")} \cup (IF Rich THEN {Seg("exchange")} ELSE {})
+Names3 == ({Seg("health"), Seg("_oauth"), Seg("plain")}
+           \cup (IF Rich THEN {[b |-> "health", e |-> "_status"], WK} ELSE {})) \cap Names
+Mids3 == {Seg("callback"), Seg("init"), Seg("")} \cup (IF Rich THEN {Seg("health")} ELSE {})
 
 Rel == {<<>>} \cup {<<n>> : n \in Names} \cup {<<n, s>> : n \in Names, s \in Sufs}
-       \cup {<<n, s, t>> : n \in Names3, s \in {Seg("callback"), Seg("init"), Seg("health"), Seg("")}, t \in Sufs3}
+       \cup {<<n, s, t>> : n \in Names3, s \in Mids3, t \in Sufs3}
 RelWK == {<<>>} \cup {<<n>> : n \in Names} \cup {<<n, s>> : n \in Names3, s \in Sufs3}
 Paths(p) == {PSegs(p) \o x : x \in Rel} \cup Rel \cup {<<WK>> \o x : x \in RelWK} \cup {PSegs(p) \o <<WK>> \o x : x \in RelWK}
 ShortSufs == {Seg("init"), Seg("callback"), Seg("")}
@@ -69,17 +74,21 @@ ExemptOAuth(c) == Pkce(c) /\ c.path \in OAuthEndpoints(c)
 Exempt(c) == c.verb = "OPTIONS" \/ UnderWellKnown(c.path) \/ ExemptHealth(c) \/ ExemptOAuth(c)
 
 \* ---------------------------------------------------------------- the middleware as written
-ImplHealth(c) == c.health_on /\
-                 IF Dev_PrefixMatch
+\* dev = FALSE: the intended exact comparison; dev = TRUE: the textual prefix match of the code before a062be5
+ImplHealthD(c, dev) == c.health_on /\
+                 IF dev
                  THEN LET n == Len(c.prefix) IN          \* req.path.startswith(prefix + "/health")
                       Len(c.path) > n /\ StartsWith(c.path, P(c)) /\ c.path[n + 1].b = "health"
                  ELSE c.path = HealthPath(c)
-ImplOAuth(c) == Pkce(c) /\
-                IF Dev_PrefixMatch
+ImplOAuthD(c, dev) == Pkce(c) /\
+                IF dev
                 THEN LET n == Len(c.prefix) IN           \* req.path.startswith(prefix + "/_oauth/")
                      Len(c.path) >= n + 2 /\ StartsWith(c.path, P(c) \o <<Seg("_oauth")>>)
                 ELSE c.path \in OAuthEndpoints(c)
-ExemptImpl(c) == c.verb = "OPTIONS" \/ UnderWellKnown(c.path) \/ ImplHealth(c) \/ ImplOAuth(c)
+ExemptImplD(c, dev) == c.verb = "OPTIONS" \/ UnderWellKnown(c.path) \/ ImplHealthD(c, dev) \/ ImplOAuthD(c, dev)
+ImplHealth(c) == ImplHealthD(c, Dev_PrefixMatch)
+ImplOAuth(c) == ImplOAuthD(c, Dev_PrefixMatch)
+ExemptImpl(c) == ExemptImplD(c, Dev_PrefixMatch)
 Leak(c) == IF Exempt(c) \/ ~ExemptImpl(c) THEN "none"
            ELSE IF ImplHealth(c) THEN "health-prefix" ELSE "oauth-prefix"
 
@@ -98,8 +107,9 @@ Expected(c) == [exempt |-> Exempt(c), leak |-> Leak(c), reach |-> Reach(c)]
 
 \* ---------------------------------------------------------------- table sanity (TLC, every case)
 ExemptSubsetOfImpl(c) == Exempt(c) => ExemptImpl(c)          \* the code exempts at least what the statement lists
-NoLeak(c) == Leak(c) = "none"                                \* model-level form of "only the listed requests bypass"
-IntendedIsExact(c) == (~Dev_PrefixMatch) => (ExemptImpl(c) <=> Exempt(c))
+NoLeak(c) == Leak(c) = "none"                                \* model-level "only the listed requests bypass" (fails iff Dev_PrefixMatch)
+IntendedNoLeak(c) == ExemptImplD(c, FALSE) => Exempt(c)      \* the same clause on the intended design
+IntendedIsExact(c) == ExemptImplD(c, FALSE) <=> Exempt(c)
 ReachNeverExempt(c) == Reach(c) => ~Exempt(c)                \* no service-code route is on the exempt list
 OptionsNeverReach(c) == c.verb = "OPTIONS" => ~Reach(c)
 LeakOnlyTwoSites(c) == Leak(c) # "none" => (Dev_PrefixMatch /\ (ImplHealth(c) \/ ImplOAuth(c)))
